@@ -23,6 +23,7 @@ func propC17() Property {
 		Rules: []RuleDef{
 			{ID: "C17-R1", Desc: "file: save before increment", Min: 1, Run: c17R1},
 			{ID: "C17-R2", Desc: "file SaveMessage: data, then index, then sync data, then sync index", Min: 3, Run: c17R2},
+			{ID: "C17-R8", Desc: "each stored message is read at the offset its index line records", Min: 1, Run: c17R8},
 			{ID: "C17-R3", Desc: "counter rewrite: seek → fixed-width write → sync", Min: 3, Run: c17R3},
 			{ID: "C17-R4", Desc: "sql save-and-increment is one transaction; cache after commit", Min: 4, Run: c17R4},
 			{ID: "C17-R5", Desc: "no store I/O error dropped", Min: 20, Run: c16R7},
@@ -365,7 +366,7 @@ func c17R3(c *Ctx) {
 			case "(*os.File).Seek":
 				seq = append(seq, "seek")
 				instrs = append(instrs, in)
-			case "fmt.Fprintf", "(*os.File).Write":
+			case "fmt.Fprintf", "fmt.Fprint", "fmt.Fprintln", "(*os.File).Write", "(*os.File).WriteString", "io.WriteString":
 				seq = append(seq, "write")
 				instrs = append(instrs, in)
 			case "(*os.File).Sync":
@@ -417,6 +418,18 @@ func c17R3(c *Ctx) {
 				w, _ = strconv.Atoi(m[2])
 			}
 			c.Check(m != nil && m[1] == "0" && w >= 19, name, p.InstrPos(instrs[1]), "fixed-width", "counter written as "+f+" (zero padded, width >= 19)", "counter is written with format "+strconv.Quote(f)+": without zero padding to a fixed width (>= 19 digits) a smaller number rewritten over a larger one leaves stale trailing digits, and the reloaded counter is wrong")
+			} else if fn.Signature.Params().Len() >= 2 {
+			// a counter writer (file and number are parameters) that writes the number through something
+			// other than a fixed-width format: what it writes must be shown to have a fixed width
+			isInt := false
+			for i := 0; i < fn.Signature.Params().Len(); i++ {
+				if b, ok := fn.Signature.Params().At(i).Type().Underlying().(*types.Basic); ok && b.Info()&types.IsInteger != 0 {
+					isInt = true
+				}
+			}
+			if isInt {
+				c.Violation(name, p.InstrPos(instrs[1]), "fixed-width", "the counter is written with "+callName(wr)+", not with a zero-padded fixed-width format: the file is rewritten in place and never truncated, so a number with fewer digits written over a longer one leaves stale trailing digits and the reloaded counter is wrong")
+			}
 		}
 	}
 	if n == 0 {
